@@ -1,0 +1,112 @@
+//! Verification hooks, compiled only with the cargo feature `verif`.
+//!
+//! A [`Framework`](crate::Framework) built with this feature carries a log of
+//! the steps it takes inside `trigger_events` (one record per internal
+//! critical section). The log is off until [`Framework::verif_enable`] is
+//! called and is drained with [`Framework::verif_take`]. Nothing here changes
+//! the behaviour of the framework.
+
+use crate::action::TriggerAction;
+use crate::counter::Operation;
+use crate::event::Event;
+use crate::time::Instant;
+
+/// One counter update as performed by `update_counter`.
+#[derive(Debug, Clone, PartialEq)]
+pub struct CtrRec {
+    pub operation: Operation,
+    pub copy: bool,
+    pub value: u64,
+    pub old: u64,
+    pub new: u64,
+}
+
+/// The outcome of sampling the next state in `transition`.
+#[derive(Debug, Clone, Copy, PartialEq, Eq)]
+pub enum Outcome {
+    /// the machine was already in its end state, nothing sampled
+    Ended,
+    /// no transition for the event
+    NoTransition,
+    /// sampled target (a state index, STATE_END or STATE_SIGNAL)
+    To(usize),
+}
+
+/// A record of one internal step of the framework.
+#[derive(Clone)]
+pub enum Rec<T: Instant> {
+    /// prologue of `trigger_events`
+    Call { num_events: usize },
+    /// head of `process_event`
+    Event { event: crate::TriggerEvent },
+    /// `transition` sampled an outcome
+    Trans {
+        machine: usize,
+        event: Event,
+        from: usize,
+        outcome: Outcome,
+    },
+    /// `transition` sampled a new limit on a state change
+    Limit {
+        machine: usize,
+        state: usize,
+        limit: u64,
+    },
+    /// `update_counter` finished updating both counters
+    Counter {
+        machine: usize,
+        a: Option<CtrRec>,
+        b: Option<CtrRec>,
+        zeroed: bool,
+    },
+    /// tail of a regular `transition`: scheduling decision
+    After {
+        machine: usize,
+        state: usize,
+        allow: bool,
+        below: bool,
+        slot: Option<TriggerAction<T>>,
+        changed: bool,
+    },
+    /// `decrement_limit`
+    Decrement {
+        machine: usize,
+        limit: u64,
+        raise: bool,
+    },
+    /// signal delivery: round 1 (`excluded` is the machine skipped, if any) or
+    /// round 2 (delivery to the excluded machine)
+    Signal { round: u8, excluded: Option<usize> },
+}
+
+/// Read-only copy of one machine's runtime.
+#[derive(Clone)]
+pub struct MachineSnapshot<T: Instant> {
+    pub current_state: usize,
+    pub state_limit: u64,
+    pub padding_sent: u64,
+    pub normal_sent: u64,
+    pub blocking_duration: T::Duration,
+    pub counter_a: u64,
+    pub counter_b: u64,
+}
+
+/// Read-only copy of the framework's internal state.
+#[derive(Clone)]
+pub struct Snapshot<T: Instant> {
+    pub machines: Vec<MachineSnapshot<T>>,
+    pub normal_sent_packets: u64,
+    pub padding_sent_packets: u64,
+    pub blocking_duration: T::Duration,
+    pub blocking_active: bool,
+    /// 0 = none, 1 = all, 2 + i = all except machine i
+    pub signal_pending: usize,
+}
+
+// `T::Duration` need not be `Debug`, so the derive cannot be used; the
+// framework itself derives `Debug` and only needs some implementation.
+impl<T: Instant> std::fmt::Debug for Rec<T> {
+    fn fmt(&self, f: &mut std::fmt::Formatter<'_>) -> std::fmt::Result {
+        f.write_str("Rec")
+    }
+}
